@@ -327,7 +327,7 @@ example :
 
 /-- The rule is not vacuous in the other direction: it rejects `aten::amax(Tensor self, int[1] dim=[],
 bool keepdim=False)` against `aten_amax(self, dim: INT64, keepdim: bool = False)` (required `dim` may be
-omitted; the row as it was before `/repo` d6091ac), and the binder indeed raises on the conforming call
+omitted; the row as it was before `/repo` d441e93), and the binder indeed raises on the conforming call
 `amax(x)`. -/
 theorem bindsOk_rejects_amax :
     let a : AtenSchema := ⟨[⟨"self", .tensor, false, false, false⟩, ⟨"dim", .int, true, false, true⟩,
@@ -750,7 +750,7 @@ theorem bindsOk_iff (m : Mode) (a : AtenSchema) (s : OsSig)
       obtain ⟨b, hbk, hBR⟩ := hall c hc
       exact absurd hBR (hno b hbk)
 
-/-- Non-vacuity of `bindsOk_tight`: the `aten::amax` row as it was before `/repo` d6091ac satisfies the hypotheses, is
+/-- Non-vacuity of `bindsOk_tight`: the `aten::amax` row as it was before `/repo` d441e93 satisfies the hypotheses, is
 rejected, and its minimal call `amax(x)` indeed raises in the binder. -/
 example :
     let a : AtenSchema := ⟨[⟨"self", .tensor, false, false, false⟩, ⟨"dim", .int, true, false, true⟩,
@@ -1035,6 +1035,8 @@ def waived : String → List Defect
   | "quantized_decomposed::quantize_per_channel.tensor2" => [.undefinedOp]
   | "quantized_decomposed::dequantize_per_channel.tensor" => [.undefinedOp]
   | "quantized_decomposed::dequantize_per_channel.tensor2" => [.undefinedOp]
+  -- C16-mean-dtype-dropped: `dtype` of the real aten::mean is not a parameter (scripted binder drops it)
+  | "aten::mean" => [.clause .kwBound]
   -- C16-repeat-interleave-self: schema `repeats` lands on parameter `self` (body compensates)
   | "aten::repeat_interleave.Tensor" => [.clause .posNames]
   -- C16-positional-surplus: the schema has more positional arguments than the function
@@ -1216,7 +1218,7 @@ theorem registry_binds_full_refuted_snapshot_roi_pool :
     e.ok = false ∧ maxCall e.aten = ⟨5, []⟩ ∧ bind e.mode e.sig (maxCall e.aten) = .error .tooMany := by
   decide
 
-/-- Historical negation witness: the `aten::amax` row as it was before `/repo` d6091ac (replayed then on
+/-- Historical negation witness: the `aten::amax` row as it was before `/repo` d441e93 (replayed then on
 the real exporter: `torch.onnx.export` of `torch.amax(x)` raised). -/
 theorem registry_binds_full_refuted_snapshot :
     let e : Entry := ⟨[97, 116, 101, 110, 58, 58, 97, 109, 97, 120], false, .scripted, .resolved,
